@@ -1,6 +1,9 @@
 //@inject src/idpf.rs
 //@harness idpf_seed_helpers | complete | xor/and/or_seeds are bytewise; control_bit_to_seed_mask is all-ones/all-zeros; conditional_xor_seeds(a,b,c) == a ^ (c ? b : 0); conditional_select_seed(c, [s0,s1]) == (c ? s1 : s0), for all seeds and bits
-//@harness idpf_level_on_path | complete | one tree level on the real generate_correction_word + eval_next (Field64 values; extend/convert uninterpreted, memoised): given party control bits t0 ^ t1 = 1, for the input bit both parties' new keys/control bits equal the generator's and still differ in the control bit, and out0 + out1 == programmed value; for the other bit keys and control bits coincide and out0 + out1 == 0
+//@harness idpf_level_on_path_b0_follow | complete | [input bit 0, evaluated child 0]  one tree level on the real generate_correction_word + eval_next (Field64 values; extend/convert uninterpreted, memoised): given party control bits t0 ^ t1 = 1, for the input bit both parties' new keys/control bits equal the generator's and still differ in the control bit, and out0 + out1 == programmed value; for the other bit keys and control bits coincide and out0 + out1 == 0
+//@harness idpf_level_on_path_b1_follow | complete | [input bit 1, evaluated child 1]  one tree level on the real generate_correction_word + eval_next (Field64 values; extend/convert uninterpreted, memoised): given party control bits t0 ^ t1 = 1, for the input bit both parties' new keys/control bits equal the generator's and still differ in the control bit, and out0 + out1 == programmed value; for the other bit keys and control bits coincide and out0 + out1 == 0
+//@harness idpf_level_on_path_b0_leave | complete | [input bit 0, evaluated child 1: leaving the path]  one tree level on the real generate_correction_word + eval_next (Field64 values; extend/convert uninterpreted, memoised): given party control bits t0 ^ t1 = 1, for the input bit both parties' new keys/control bits equal the generator's and still differ in the control bit, and out0 + out1 == programmed value; for the other bit keys and control bits coincide and out0 + out1 == 0
+//@harness idpf_level_on_path_b1_leave | complete | [input bit 1, evaluated child 0: leaving the path]  one tree level on the real generate_correction_word + eval_next (Field64 values; extend/convert uninterpreted, memoised): given party control bits t0 ^ t1 = 1, for the input bit both parties' new keys/control bits equal the generator's and still differ in the control bit, and out0 + out1 == programmed value; for the other bit keys and control bits coincide and out0 + out1 == 0
 //@harness idpf_level_off_path | complete | one tree level off the input path: equal keys and equal control bits stay equal and out0 + out1 == 0 for both child bits (so zero propagates below the divergence point)
 #[cfg(kani)]
 #[allow(static_mut_refs)]
@@ -68,20 +71,14 @@ mod verif_c06 {
 
     fn bit(c: Choice) -> u8 { c.unwrap_u8() }
 
-    #[kani::proof]
-    #[kani::unwind(18)]
-    #[kani::stub(extend, extend_stub)]
-    #[kani::stub(convert, convert_stub)]
-    fn idpf_level_on_path() {
+    fn on_path_case(b: bool, bp: bool) {
         let keys: [[u8; 16]; 2] = kani::any();
         let t0: bool = kani::any();
         let ctrl = [Choice::from(t0 as u8), Choice::from(!t0 as u8)];      // invariant on the input path: t0 ^ t1 == 1
-        let b: bool = kani::any();
         let value = any64();
         let mode = XofMode::Leaf(b"", b"");
         let (mut gk, mut gc) = (keys, ctrl);
         let cw = generate_correction_word::<Field64>(Choice::from(b as u8), value, &(), &mut gk, &mut gc, &mode, &mode);
-        let bp: bool = kani::any();
         let (mut k0, mut c0, mut k1, mut c1) = (keys[0], ctrl[0], keys[1], ctrl[1]);
         let o0 = eval_next::<Field64>(true, &(), &mut k0, &mut c0, &cw, Choice::from(bp as u8), &mode, &mode);
         let o1 = eval_next::<Field64>(false, &(), &mut k1, &mut c1, &cw, Choice::from(bp as u8), &mode, &mode);
@@ -95,9 +92,20 @@ mod verif_c06 {
             assert!(bit(c0) == bit(c1));
             assert!(raw64(o0 + o1) == 0);
         }
-        kani::cover!(bp == b);
-        kani::cover!(bp != b);
+        kani::cover!(t0);
+        kani::cover!(!t0);
     }
+    macro_rules! onp { ($name:ident, $b:expr, $bp:expr) => {
+        #[kani::proof]
+        #[kani::unwind(18)]
+        #[kani::stub(extend, extend_stub)]
+        #[kani::stub(convert, convert_stub)]
+        fn $name() { on_path_case($b, $bp) }
+    } }
+    onp!(idpf_level_on_path_b0_follow, false, false);
+    onp!(idpf_level_on_path_b1_follow, true, true);
+    onp!(idpf_level_on_path_b0_leave, false, true);
+    onp!(idpf_level_on_path_b1_leave, true, false);
 
     #[kani::proof]
     #[kani::unwind(18)]
